@@ -55,7 +55,7 @@ func boolp(b bool) *bool { return &b }
 // mkRule builds a rule config with one route; methods are the "additional conditions".
 func mkRule(id, expr string, methods []string, bt *bool) rconfig.Rule {
 	return rconfig.Rule{
-		ID:      id,
+		ID: id,
 		// heimdall's createMethodMatcher edits the slice it is given in place: never share it
 		Matcher: rconfig.Matcher{Routes: []rconfig.Route{{Path: expr}}, Methods: append([]string(nil), methods...), BacktrackingEnabled: bt},
 		Execute: []config.MechanismConfig{{"authenticator": "anon"}},
